@@ -120,6 +120,10 @@ func (e *BoundsEngine) vname(v ssa.Value) string {
 		return n
 	}
 	var n string
+	if ld := e.stableLoad(v); ld != "" {
+		e.names[v] = ld
+		return ld
+	}
 	switch x := v.(type) {
 	case *ssa.Parameter:
 		n = x.Name()
@@ -348,6 +352,21 @@ func (e *BoundsEngine) form1(v ssa.Value) lin {
 		for _, ed := range x.Edges {
 			if ed == v {
 				continue
+			}
+			// loop-carried operand phi + non-negative constant (recognised structurally: the form of
+			// the operand is not available while the phi itself is being evaluated)
+			if bo, isBin := ed.(*ssa.BinOp); isBin && bo.Op == token.ADD {
+				var other ssa.Value
+				if bo.X == v {
+					other = bo.Y
+				} else if bo.Y == v {
+					other = bo.X
+				}
+				if k, isK := other.(*ssa.Const); isK && k.Value != nil && k.Value.Kind() == constant.Int {
+					if iv, okv := constant.Int64Val(k.Value); okv && iv >= 0 {
+						continue
+					}
+				}
 			}
 			fe := e.form(ed)
 			if len(fe.t) == 0 {
@@ -680,4 +699,63 @@ func ReportBounds(c *Ctx, r *Rule, f *Func, assumeLo map[string]int64) int {
 		}
 	}
 	return len(obs)
+}
+
+
+// stableLoad names a load of a field of a non-escaping local struct so that two loads of the
+// same field denote the same value: allowed when the local is only ever written as a whole and
+// every such store dominates the load (go/ssa performs no CSE on loads).
+func (e *BoundsEngine) stableLoad(v ssa.Value) string {
+	u, ok := v.(*ssa.UnOp)
+	if !ok || u.Op != token.MUL {
+		return ""
+	}
+	fa, ok := u.X.(*ssa.FieldAddr)
+	if !ok {
+		return ""
+	}
+	al, ok := fa.X.(*ssa.Alloc)
+	if !ok || al.Heap {
+		return ""
+	}
+	for _, ref := range *al.Referrers() {
+		switch r := ref.(type) {
+		case *ssa.Store:
+			if r.Addr != ssa.Value(al) {
+				return ""
+			}
+			if !r.Block().Dominates(u.Block()) {
+				return ""
+			}
+			if r.Block() == u.Block() {
+				// same block: the store must come first
+				before := false
+				for _, ins := range r.Block().Instrs {
+					if ins == ssa.Instruction(r) {
+						before = true
+					}
+					if ins == ssa.Instruction(u) {
+						if !before {
+							return ""
+						}
+						break
+					}
+				}
+			}
+		case *ssa.FieldAddr:
+			// field addresses are fine as long as nothing is stored through them
+			for _, r2 := range *r.Referrers() {
+				if st, isStore := r2.(*ssa.Store); isStore && st.Addr == ssa.Value(r) {
+					return ""
+				}
+				if _, isCall := r2.(*ssa.Call); isCall {
+					return "" // address escapes into a call
+				}
+			}
+		case *ssa.UnOp, *ssa.DebugRef:
+		default:
+			return ""
+		}
+	}
+	return fmt.Sprintf("ld(%s.%d)", al.Name(), fa.Field)
 }
